@@ -2,7 +2,7 @@
    Proofs/GraphP*.v. *)
 From Coq Require Import ZArith Bool List.
 Import ListNotations.
-From Verif Require Import Model.Val Model.Graph Proofs.GraphPBase Proofs.GraphPDfs Proofs.GraphPTopo Proofs.GraphPDep.
+From Verif Require Import Model.Val Model.Graph Proofs.GraphPBase Proofs.GraphPDfs Proofs.GraphPTopo Proofs.GraphPDep Proofs.GraphPBfs.
 Open Scope Z_scope.
 
 (* every graph the constructor can build is well-formed; the constructor never raises *)
@@ -63,3 +63,10 @@ Theorem C17_node_depth : forall g, wf g -> acyclic g -> forall mx n, In n (nodes
     end.
 Proof. exact get_node_depth_spec. Qed.
 Print Assumptions C17_node_depth.
+
+(* breadth_first() on a DAG without parallel edges: ends normally, every node exactly once, parents first *)
+Theorem C17_bfs : forall g, wf g -> simple g -> acyclic g ->
+  exists l, breadth_first g None = (l, 0) /\ Permutation.Permutation l (nodes g) /\
+    forall u v, edge g u v -> (index_of u l < index_of v l)%nat.
+Proof. exact bfs_spec. Qed.
+Print Assumptions C17_bfs.
